@@ -13,7 +13,9 @@ done
 python3-vt - <<'P'
 import json,jsonschema,glob
 s=json.load(open('/root/.vp/EVIDENCE.schema.json'))
+ready=open('/verif/tools/manifest/READY').read().split()
 for f in sorted(glob.glob('/verif/evidence/*.json')):
+    if f.split('/')[-1][:-5] not in ready: continue
     try: jsonschema.validate(json.load(open(f)),s)
     except Exception as e: print('EVIDENCE INVALID',f,str(e)[:200])
 jsonschema.validate(json.load(open('/verif/MANIFEST.json')),json.load(open('/root/.vp/MANIFEST.schema.json')))
